@@ -84,14 +84,21 @@ theorem InvC.congr {w : World} {com : SGraph} {otx otx' : Nat → Option STx} (h
   have : otx' = otx := funext he
   rw [this]; exact h
 
-theorem inv_init : Inv {} := by
-  refine ⟨storeOK_init, ⟨?_, ?_⟩, ?_, ?_, ?_, ?_⟩
+/-- an empty database, at any epoch -/
+theorem inv_empty (e : Nat) : Inv { w := { store := { epoch := e }, mgr := ⟨e, []⟩ } } := by
+  refine ⟨?_, ⟨?_, ?_⟩, ?_, ?_, ?_, ?_⟩
+  · refine ⟨by simp [NodupKeys, keys], by simp, by simp, by simp [NodupKeys, keys], by simp, by simp, rfl, rfl,
+      by intro id _; rfl, ?_, by intro l; simp [Store.nodesByLabel, aget], ?_, by intro n; simp [Store.outEdges, aget]⟩
+    · intro l id; simp [inIdx, hasLabel, Store.nodeLabelsOf, aget]
+    · intro n d e; simp [Store.outEdges, aget]
   · intro k slot h; simp [World.curOf, aget] at h
   · intro k k' slot h; simp [World.curOf, aget] at h
   · intro k; rfl
   · intro k t h; simp [otxOf, aget] at h
-  · exact tabRel_init
-  · exact tabRel_init
+  · exact tabRel_empty _
+  · exact tabRel_empty _
+
+theorem inv_init : Inv {} := inv_empty 0
 
 
 /-! ### micro-steps -/
